@@ -92,6 +92,16 @@ func checkC07(c *Ctx) {
 		}
 		r.Rule("C07.j", "no placeholder of a forward-declared type survives its type group in the global info table: the collector and the substitution that drive the resolution loop have their reviewed closed forms (every component, generic or not)", 2)
 		c.checkPins(f, "C07.j", ps2)
+		// (k) which record type an unnamed record literal denotes: the types whose field-name SET is the literal's —
+		// compared name by name.  Any coarser key (a hash, the names joined without a separator) lets a record type
+		// the definition never mentions capture its literal.
+		r.Rule("C07.k", "an unnamed record literal is matched against a record type by its field names, compared element by element (sorted lists of equal length); the candidates are tried in sorted name order", 2)
+		c.checkPins(f, "C07.k", []pin{
+			{"recFacMatch", "nf", `if((slice.Length(p0) ne slice.Length(p1.Fields)), false, (slice.Sort(p0) eq slice.Sort(slice.Map(\x0. x0.Name, p1.Fields))))`,
+				"a literal matches a record type iff it has as many fields and the sorted name lists are equal as lists"},
+			{"scLookupRecFacCur", "nf", `slice.TryFind(recFacMatch(p1, _), slice.Map(dict.Item(SCSDict(p0).RecFacMap, _), slice.Sort(dict.Keys(SCSDict(p0).RecFacMap))))`,
+				"the first matching record type in sorted name order"},
+		})
 	}
 
 	// (b)
